@@ -42,10 +42,13 @@ type c26Req struct {
 	status      int
 }
 
-// c26DefinitelyJWS: three non-empty dot-separated base64url segments. (A
-// credential with an empty third segment, or with other characters, is not
-// demanded either way.)
-var c26DefinitelyJWS = regexp.MustCompile(`\A[A-Za-z0-9_-]+\.[A-Za-z0-9_-]+\.[A-Za-z0-9_-]+\z`)
+// c26DefinitelyJWS: the JWS compact serialization of RFC 7515 §7.1 —
+// BASE64URL(header) "." BASE64URL(payload) "." BASE64URL(signature) — with a
+// non-empty header and payload; the signature segment is empty for an
+// unsecured JWS (RFC 7515 §A.5, alg "none"), which is still a JWS. (A detached
+// payload "h..s", or a credential with other characters, is not demanded
+// either way.)
+var c26DefinitelyJWS = regexp.MustCompile(`\A[A-Za-z0-9_-]+\.[A-Za-z0-9_-]+\.[A-Za-z0-9_-]*\z`)
 
 // c26MaxCredential is the documented cap on a credential the route will try
 // to resolve (introspect_token.go: "Cap on a credential we will even attempt
@@ -528,7 +531,7 @@ func init() {
 		Assumptions: []string{
 			"window notion: the statement says 'per caller per window' and the configuration field is a per-second rate served by a fixed-window limiter whose phase is not specified; the oracle demands only that SOME placement of disjoint one-second windows exists in which every allowlisted principal has at most `limit` admitted (non-429) requests per window, each principal judged on its own (this implies at most 2×limit in any one-second sliding interval, which is all the documentation promises across a boundary)",
 			"the clock does not move while a request is between arrival and its first body read / resolver call / response, so the instant of the limiter's decision is the request's arrival instant",
-			"'JWS-shaped' is demanded only for three non-empty base64url segments; an empty signature segment or foreign characters are not demanded either way",
+			"'JWS-shaped' = RFC 7515 compact serialization with non-empty header and payload and a possibly empty signature (unsecured JWS); a detached payload or foreign characters are not demanded either way",
 			"'oversized' is the documented 4096-character cap on a credential the route will attempt to resolve",
 			"credentials shorter than 9 characters carry no unique marker and are not searched for in responses and logs",
 			"callers rejected by the authenticator (401) are only required to leave the resolver and the subject untouched; the disabled route is only required not to answer 2xx",
